@@ -212,8 +212,8 @@ SENSITIVITY = {'C18': [('DEV_OffByOne', 'B64Line', dict(B64, DEV_OffByOne='TRUE'
                                  'DEV_FreshInnerBoundary', 'DEV_CountSignaturePart']]}
 
 
-ALLCALLS = '{"SetBodyP", "SetBodyH", "AddAltP", "AddAltH", "Del1", "Del2", "Embed", "Attach", "UnsetAtt", "UnsetEmb", "UnsetParts", "DropFirstAtt", "DropFirstEmb", "RevAtt"}'
-CORECALLS = '{"SetBodyP", "AddAltH", "Del1", "Embed", "Attach", "UnsetAtt", "RevAtt"}'
+ALLCALLS = '{"SetBodyP", "SetBodyH", "AddAltP", "AddAltH", "Del1", "Del2", "Embed", "Attach", "UnsetAtt", "UnsetEmb", "UnsetParts", "DropFirstAtt", "DropFirstEmb", "RevAtt", "Handover"}'
+CORECALLS = '{"SetBodyP", "AddAltH", "Del1", "Embed", "Attach", "UnsetAtt", "RevAtt", "Handover"}'
 # sequences of builder calls (MsgCalls.tla): the calls are executed on a real Msg, the expectation is the specification's final state
 STAGES['C01']['quick'] += [('call-sequences-len3', 'MsgCalls', dict(MAXCALLS='3', CALLS=ALLCALLS, ENCS='{"qp"}')),
                            ('call-sequences-len4-core', 'MsgCalls', dict(MAXCALLS='4', CALLS=CORECALLS, ENCS='{"b64"}'))]
